@@ -4,12 +4,12 @@ import (
 	"archive/tar"
 	"bytes"
 	"crypto/sha256"
-	"path"
-	"path/filepath"
-	"sort"
 	"fmt"
 	"io"
 	"os"
+	"path"
+	"path/filepath"
+	"sort"
 	"strconv"
 	"strings"
 
@@ -20,14 +20,14 @@ import (
 // for a failing input; the theorems are what decides the property on the model.
 
 type hookState struct {
-	prevLen  int64
-	prevHash [32]byte
-	started  bool
-	roHash   [32]byte
-	roRows   string
-	roSeen   bool
-	prevTree []string
-	cutSeen  bool
+	prevLen    int64
+	prevHash   [32]byte
+	started    bool
+	roHash     [32]byte
+	roRows     string
+	roSeen     bool
+	prevTree   []string
+	cutSeen    bool
 	indexAhead bool
 }
 
@@ -109,6 +109,16 @@ func judgeOracles(o fsOpts, hist *h.History, m []h.ModelStep, res *result) {
 		}
 		if has(o.oracles, "C10") && (st.Res == "stuck" || st.LateWedge) {
 			st.OracleMsgs = append(st.OracleMsgs, fmt.Sprintf("C10\x00%s never returned or left the drive locked for every later call", st.Call.Method))
+		}
+		if has(o.oracles, "C17") && !st.Directive {
+			// every call the foreign-archive generator issues names an existing member or a fresh
+			// name under an existing directory: on a filesystem it succeeds
+			switch {
+			case st.Res == "stuck" || st.LateWedge:
+				st.OracleMsgs = append(st.OracleMsgs, fmt.Sprintf("C17\x00%s on the opened archive never returned or left the drive locked", st.Call.Method))
+			case st.Res != "ok":
+				st.OracleMsgs = append(st.OracleMsgs, fmt.Sprintf("C17\x00%s on the opened archive returned %s", st.Call.Method, st.Res))
+			}
 		}
 		if has(o.oracles, "C14") && i < len(m) {
 			if msg := judgeC14(st, m[i]); msg != "" {
